@@ -297,6 +297,9 @@ func (st *State) assumeWellTyped(t Term, ty types.Type) {
 			var fs []Term
 			for _, key := range reg.anyOrder {
 				con := reg.anyCons[key]
+				if con.Opaque {
+					continue
+				}
 				switch con.Payload {
 				case SRef:
 					u := app(SRef, con.Accessor, t)
